@@ -11,6 +11,7 @@ __all__ = [
 ]
 
 import collections
+import collections.abc
 import logging
 from typing import Protocol
 
@@ -109,6 +110,14 @@ class NameFixPass(ir.passes.InPlacePass):
         # Counters for generating unique names (using list to pass by reference)
         value_counter: collections.Counter[str] = collections.Counter()
         node_counter: collections.Counter[str] = collections.Counter()
+
+        # Names that exist anywhere in this graph (and its subgraphs) before fixing.
+        # A newly generated name must not be one of them: the value or node that carries it
+        # may not have been visited yet, and taking its name would either force that
+        # (previously unique) name to change or collide with a registered initializer.
+        self._reserved_value_names, self._reserved_node_names = _collect_existing_names(
+            graph_like
+        )
 
         def enter_graph(graph_like) -> None:
             """Callback for entering a subgraph."""
@@ -210,7 +219,9 @@ class NameFixPass(ir.passes.InPlacePass):
         )
 
         preferred_name = self._name_generator.generate_value_name(value)
-        value.name = _find_and_record_next_unique_name(preferred_name, used_names, counter)
+        value.name = _find_and_record_next_unique_name(
+            preferred_name, used_names, counter, self._reserved_value_names
+        )
         logger.debug("Assigned name %s to unnamed value", value.name)
         return True
 
@@ -223,7 +234,9 @@ class NameFixPass(ir.passes.InPlacePass):
         )
 
         preferred_name = self._name_generator.generate_node_name(node)
-        node.name = _find_and_record_next_unique_name(preferred_name, used_names, counter)
+        node.name = _find_and_record_next_unique_name(
+            preferred_name, used_names, counter, self._reserved_node_names
+        )
         logger.debug("Assigned name %s to unnamed node", node.name)
         return True
 
@@ -244,7 +257,9 @@ class NameFixPass(ir.passes.InPlacePass):
 
         # If name is already used, make it unique
         base_name = self._name_generator.generate_value_name(value)
-        value.name = _find_and_record_next_unique_name(base_name, used_names, counter)
+        value.name = _find_and_record_next_unique_name(
+            base_name, used_names, counter, self._reserved_value_names
+        )
         logger.debug("Renamed value from %s to %s for uniqueness", original_name, value.name)
         return True
 
@@ -263,17 +278,50 @@ class NameFixPass(ir.passes.InPlacePass):
 
         # If name is already used, make it unique
         base_name = self._name_generator.generate_node_name(node)
-        node.name = _find_and_record_next_unique_name(base_name, used_names, counter)
+        node.name = _find_and_record_next_unique_name(
+            base_name, used_names, counter, self._reserved_node_names
+        )
         logger.debug("Renamed node from %s to %s for uniqueness", original_name, node.name)
         return True
 
 
+def _collect_existing_names(
+    graph_like: ir.Graph | ir.Function,
+) -> tuple[set[str], set[str]]:
+    """Collect the value and node names present in a graph and all of its subgraphs."""
+    value_names: set[str] = set()
+    node_names: set[str] = set()
+
+    def collect_graph_values(graph) -> None:
+        values = [*graph.inputs, *graph.outputs]
+        if isinstance(graph, ir.Graph):
+            values.extend(graph.initializers.values())
+        value_names.update(value.name for value in values if value.name)
+
+    for node in ir.traversal.RecursiveGraphIterator(
+        graph_like, enter_graph=collect_graph_values
+    ):
+        if node.name:
+            node_names.add(node.name)
+        for value in (*node.inputs, *node.outputs):
+            if value is not None and value.name:
+                value_names.add(value.name)
+    return value_names, node_names
+
+
 def _find_and_record_next_unique_name(
-    preferred_name: str, used_names: set[str], counter: collections.Counter[str]
+    preferred_name: str,
+    used_names: set[str],
+    counter: collections.Counter[str],
+    reserved_names: collections.abc.Set[str] = frozenset(),
 ) -> str:
-    """Generate a unique name based on the preferred name and current counter."""
+    """Generate a unique name based on the preferred name and current counter.
+
+    The name is different from all ``used_names`` and from all ``reserved_names``
+    (names that exist in the graph but may not have been visited yet).
+    """
     new_name = preferred_name
-    while new_name in used_names:
+    while new_name in used_names or new_name in reserved_names:
         counter[preferred_name] += 1
         new_name = f"{preferred_name}_{counter[preferred_name]}"
     used_names.add(new_name)
